@@ -1,20 +1,9 @@
 #!/bin/sh
-# run_seeded.sh [dirs...] : run each stored seeded change against its property's check (quick tier), 4 at a time;
-# one line per change in seeded/RESULTS.md
+# run_seeded.sh [dirs...] : run each stored seeded change against its property's check (quick tier) in a scratch
+# worktree (tools/trymutant.sh), 3 at a time; results go into seeded/<dir>/meta.json (check_results) and the table
+# seeded/RESULTS.md is regenerated from all meta.json files (tools/seeded_report.py)
 cd /verif
 mkdir -p /tmp/seeded_out
 list=${@:-$(ls seeded | grep -v RESULTS)}
-echo "$list" | tr ' ' '\n' | xargs -P 4 -I{} sh -c 'd={}; prop=$(echo $d | cut -d- -f1); tools/trymutant.sh /verif/seeded/$d/patch.diff $prop quick > /tmp/seeded_out/$d.txt 2>&1'
-{
-echo "# Seeded changes vs. checks (quick tier, VERIF_SEED=${VERIF_SEED:-1})"
-echo
-echo "| change | property | detected | first lines |"
-echo "|---|---|---|---|"
-for d in $list; do
-  prop=$(echo $d | cut -d- -f1)
-  if grep -q "^VIOLATION" /tmp/seeded_out/$d.txt; then det=yes; elif grep -q "does not apply" /tmp/seeded_out/$d.txt; then det="n/a (patch no longer applies)"; else det=NO; fi
-  first=$(grep -v "^KNOWN" /tmp/seeded_out/$d.txt | head -2 | tr '\n' ' ' | cut -c1-120 | tr '|' '/')
-  echo "| $d | $prop | $det | $first |"
-done
-} > seeded/RESULTS.md
-cat seeded/RESULTS.md
+echo "$list" | tr ' ' '\n' | xargs -P ${PAR:-3} -I{} sh -c 'd={}; prop=$(echo $d | cut -d- -f1); tools/trymutant.sh /verif/seeded/$d/patch.diff $prop quick > /tmp/seeded_out/$d.txt 2>&1'
+python3 tools/seeded_report.py $list
